@@ -247,7 +247,7 @@ def monitor_cases(scratch, base, trace_file, chk="Chk", name=None, timeout=1800)
     return j
 
 
-def conform(scratch, module, trace_files, kinds, consts_for, name, timeout=900, max_runs=None, corrupt=False,
+def conform(scratch, module, trace_files, kinds, consts_for, name, timeout=900, max_runs=None, corrupt=0,
             trs=("inproc",)):
     """B-conf: validates recorded runs against an L1 model with silent internal
     steps. trace_files: NDJSON trace files; kinds: dict kind -> (ReqStreamC,
@@ -256,11 +256,12 @@ def conform(scratch, module, trace_files, kinds, consts_for, name, timeout=900, 
     with concurrent.futures.ThreadPoolExecutor(max_workers=max(1, len(kinds))) as ex:
         parts = list(ex.map(lambda kv: _conform_kind(scratch, module, trace_files, kv[0], kv[1], consts_for, name,
                                                      timeout, max_runs, corrupt, trs), kinds.items()))
-    out = dict(total=0, accepted=0, rejected=[], states=0, stuck={})
+    out = dict(total=0, accepted=0, rejected=[], states=0, stuck={}, accepted_runs=[])
     for p in parts:
         out["total"] += p["total"]
         out["accepted"] += p["accepted"]
         out["rejected"] += p["rejected"]
+        out["accepted_runs"] += p.get("accepted_runs", [])
         out["states"] += p["states"]
         out["stuck"].update(p["stuck"])
     return out
@@ -309,7 +310,10 @@ def _conform_kind(scratch, module, trace_files, kind, flags, consts_for, name, t
                 if j["ev"] in ("CRecvRet", "HRecvRet") and j["res"]["k"] == "nil":
                     j["msg"] = j["msg"] + 1
                     changed.add(j["run"])
-            lines = [j for j in lines if j["run"] in changed]
+            # (corrupt = how many of them, taken from the same window of runs
+            # as the validation proper)
+            keep_runs = set(sorted(changed)[:int(corrupt)])
+            lines = [j for j in lines if j["run"] in keep_runs]
             if not lines:
                 return dict(total=0, accepted=0, rejected=[], states=0, stuck={})
         n = len(lines)
@@ -354,4 +358,5 @@ def _conform_kind(scratch, module, trace_files, kind, flags, consts_for, name, t
                     nxt = {k: v for k, v in j.items() if k not in ("nb",)}
                     break
             stuck[x] = dict(kind=kind, line=nxt)
-    return dict(total=total, accepted=accepted, rejected=rejected, states=states, stuck=stuck)
+    return dict(total=total, accepted=accepted, rejected=rejected, states=states, stuck=stuck,
+                accepted_runs=[x for x in runs if x in acc])
